@@ -33,6 +33,7 @@ type variant struct {
 	desc    string
 	mk      func() interface{}
 	invalid bool // a value the validators are known (and checked) to reject
+	deltaOf int  // >0: this variant differs from variant number deltaOf (1-based) in exactly one field
 }
 
 // entity is one datastore key with its candidate values.
@@ -44,7 +45,8 @@ type entity struct {
 }
 
 type universe struct {
-	ents []*entity
+	profOrder bool // profile-order flavour (see newUniverse)
+	ents      []*entity
 	// facts the reference model needs
 	selectors []string
 }
@@ -127,16 +129,16 @@ func mkPorts(ps []portSpec) []model.EndpointPort {
 	return out
 }
 
-var profileLists = [][]string{nil, {"p0"}, {"p0", "p1"}, {"p1", "p-missing"}, {"kns.n1", "p0"}, {"p2"}}
+var profileLists = [][]string{nil, {"p0"}, {"p0", "p1"}, {"p1", "p-missing"}, {"kns.n1", "p0"}, {"p2"}, {"p1", "p0"}}
 
 // ruleSpec is a compact description of a policy/profile rule.
 type ruleSpec struct {
-	action                                       string
-	srcSel, dstSel, notSrcSel, notDstSel         string
-	srcNets, notSrcNets, dstNets                 []string
-	proto                                        string
-	dstNamedPort, srcNamedPort, notDstNamedPort  string
-	dstPort                                      uint16
+	action                                      string
+	srcSel, dstSel, notSrcSel, notDstSel        string
+	srcNets, notSrcNets, dstNets                []string
+	proto                                       string
+	dstNamedPort, srcNamedPort, notDstNamedPort string
+	dstPort                                     uint16
 }
 
 func (rs ruleSpec) mk() model.Rule {
@@ -247,19 +249,41 @@ type epSpec struct {
 }
 
 type polSpec struct {
-	tier             string
-	order            *float64
-	selector         string
-	in, out          []ruleSpec
-	types            []string
-	untracked        bool
-	preDNAT          bool
-	applyOnForward   bool
-	stagedActionSet  bool
+	tier            string
+	order           *float64
+	selector        string
+	in, out         []ruleSpec
+	types           []string
+	untracked       bool
+	preDNAT         bool
+	applyOnForward  bool
+	stagedActionSet bool
 }
 
 type profSpec struct {
 	in, out []ruleSpec
+}
+
+func wepVariant(sp epSpec) variant {
+	return variant{desc: fmt.Sprintf("labels=%v profiles=%v ips=%v ports=%v", sp.labels, sp.profiles, sp.ips, sp.ports), mk: func() interface{} {
+		w := &model.WorkloadEndpoint{State: sp.state, Name: sp.iface, Mac: mustMAC("01:02:03:04:05:06"), ProfileIDs: append([]string(nil), sp.profiles...),
+			Labels: lbl(sp.labels), Ports: mkPorts(sp.ports)}
+		for _, ip := range sp.ips {
+			w.IPv4Nets = append(w.IPv4Nets, mustNet(ip))
+		}
+		for _, ip := range sp.ip6s {
+			w.IPv6Nets = append(w.IPv6Nets, mustNet(ip))
+		}
+		return w
+	}}
+}
+
+func polSelector(src *core.Source, profOrder bool) string {
+	i := src.Intn(len(selectorChoices), "pol_sel")
+	if profOrder && src.Chance(800, "po_sel") {
+		i = []int{5, 7, 8}[i%3] // role == 'x', profile == 'p0', a == 'a' && role == 'x'
+	}
+	return selectorChoices[i]
 }
 
 func newUniverse(r *core.R) *universe {
@@ -267,14 +291,30 @@ func newUniverse(r *core.R) *universe {
 	u := &universe{selectors: selectorChoices}
 	add := func(e *entity) { u.ents = append(u.ents, e) }
 	nvar := func() []int { return make([]int, src.Range(1, 3, "nvariants")) } // range over it: the bound is drawn once
+	// profile-order flavour: endpoints list p0 and p1 (in either order), both profiles apply conflicting values of
+	// the same label, own labels leave that label alone and policies select on it - the order of an endpoint's
+	// profile list then decides which policies apply
+	pfl := 150
+	if r.Armed("C01") || r.Armed("C03") {
+		pfl = 300
+	}
+	profOrder := src.Chance(pfl, "flavour_profile_order")
+	r.Cfg("flavour_profile_order", profOrder)
+	u.profOrder = profOrder
+	poKey := src.Intn(3, "po_key") // which conflicting label both p0 and p1 apply in this flavour
 
 	// ---- workload endpoints: local and remote
 	nLocal := src.Range(1, 4, "n_local_wep")
 	nRemote := src.Range(0, 3, "n_remote_wep")
 	mkWEP := func(host, id string) *entity {
 		e := &entity{key: model.WorkloadEndpointKey{Hostname: host, OrchestratorID: "k8s", WorkloadID: id, EndpointID: "eth0"}, name: "wep/" + host + "/" + id, kind: "wep"}
+		var first *epSpec
 		for range nvar() {
-			sp := epSpec{labels: labelChoices[src.Intn(len(labelChoices), "ep_labels")], profiles: profileLists[src.Intn(len(profileLists), "ep_profiles")],
+			li, pi := src.Intn(len(labelChoices), "ep_labels"), src.Intn(len(profileLists), "ep_profiles")
+			if profOrder && src.Chance(800, "po_ep") {
+				li, pi = []int{0, 1, 4}[li%3], []int{2, 6}[pi%2]
+			}
+			sp := epSpec{labels: labelChoices[li], profiles: profileLists[pi],
 				ports: portChoices[src.Intn(len(portChoices), "ep_ports")], iface: "cali" + id, state: "active"}
 			nip := src.Range(1, 2, "ep_nips")
 			for i := 0; i < nip; i++ {
@@ -286,18 +326,38 @@ func newUniverse(r *core.R) *universe {
 			if src.Chance(100, "ep_inactive") {
 				sp.state = "inactive"
 			}
-			spc := sp
-			e.variants = append(e.variants, variant{desc: fmt.Sprintf("labels=%v profiles=%v ips=%v ports=%v", sp.labels, sp.profiles, sp.ips, sp.ports), mk: func() interface{} {
-				w := &model.WorkloadEndpoint{State: spc.state, Name: spc.iface, Mac: mustMAC("01:02:03:04:05:06"), ProfileIDs: append([]string(nil), spc.profiles...),
-					Labels: lbl(spc.labels), Ports: mkPorts(spc.ports)}
-				for _, ip := range spc.ips {
-					w.IPv4Nets = append(w.IPv4Nets, mustNet(ip))
+			e.variants = append(e.variants, wepVariant(sp))
+			if first == nil {
+				spc := sp
+				first = &spc
+			}
+		}
+		// a delta variant: the first variant with exactly one thing changed (incremental-update paths that compare
+		// old and new values field by field are exercised by updates in which only that field differs)
+		deltaP, deltaW := 500, []int{4, 2, 2, 2}
+		if profOrder {
+			deltaP, deltaW = 900, []int{8, 1, 1, 1}
+		}
+		if first != nil && src.Chance(deltaP, "ep_delta_variant") {
+			d := *first
+			switch src.Weighted(deltaW, "ep_delta_kind") {
+			case 0: // the same profiles in another order (the first profile that defines a label wins)
+				if len(d.profiles) >= 2 {
+					d.profiles = []string{d.profiles[1], d.profiles[0]}
+				} else {
+					d.profiles = []string{"p1", "p0"}
 				}
-				for _, ip := range spc.ip6s {
-					w.IPv6Nets = append(w.IPv6Nets, mustNet(ip))
-				}
-				return w
-			}})
+			case 1:
+				d.ips = []string{wepIPs[src.Intn(len(wepIPs), "ep_delta_ip")]}
+			case 2:
+				d.ports = portChoices[src.Intn(len(portChoices), "ep_delta_ports")]
+			default:
+				d.labels = labelChoices[src.Intn(len(labelChoices), "ep_delta_labels")]
+			}
+			dv := wepVariant(d)
+			dv.desc = "DELTA of variant 1: " + dv.desc
+			dv.deltaOf = 1
+			e.variants = append(e.variants, dv)
 		}
 		// invalid: no interface name (rejected by the validation filter itself)
 		e.variants = append(e.variants, variant{desc: "INVALID no interface name", invalid: true, mk: func() interface{} {
@@ -404,7 +464,7 @@ func newUniverse(r *core.R) *universe {
 		e := &entity{key: key, name: name, kind: "policy"}
 		for range nvar() {
 			ps := polSpec{tier: []string{"default", "default", "ta", "tb", "t-missing"}[src.Intn(5, "pol_tier")], order: orders[src.Intn(len(orders), "pol_order")],
-				selector: selectorChoices[src.Intn(len(selectorChoices), "pol_sel")], in: genRules(src, 2), out: genRules(src, 2)}
+				selector: polSelector(src, profOrder), in: genRules(src, 2), out: genRules(src, 2)}
 			if crowded {
 				// many policies in one tier with one order: their relative position is decided by the name tie-break alone
 				ps.tier = crowdTier
@@ -471,7 +531,17 @@ func newUniverse(r *core.R) *universe {
 		add(er)
 		el := &entity{key: model.ResourceKey{Kind: v3.KindProfile, Name: pn}, name: "profile-labels/" + pn, kind: "profile-labels"}
 		for range nvar() {
-			lt := []map[string]string{{"profile": pn}, {"profile": pn, "tag": ""}, {"role": "x"}, {"ns": "n1", "a": "b"}, {}}[src.Intn(5, "prof_labels")]
+			// "profile" and "role" get different values from different profiles: for an endpoint that lists two such
+			// profiles the ORDER of its profile list decides the effective label
+			role := map[string]string{"p0": "x", "p1": "y"}[pn]
+			if role == "" {
+				role = "x"
+			}
+			lti := src.Intn(5, "prof_labels")
+			if profOrder && src.Chance(850, "po_prof") {
+				lti = poKey // the same conflicting key from every profile
+			}
+			lt := []map[string]string{{"profile": pn}, {"profile": pn, "tag": ""}, {"role": role}, {"ns": "n1", "a": "b"}, {}}[lti]
 			el.variants = append(el.variants, variant{desc: fmt.Sprintf("labelsToApply=%v", lt), mk: func() interface{} {
 				return &v3.Profile{ObjectMeta: metav1.ObjectMeta{Name: pn}, Spec: v3.ProfileSpec{LabelsToApply: copyMap(lt)}}
 			}})
